@@ -56,7 +56,7 @@ def _install_enum_name():
 _install_enum_name()
 
 
-@contract(W, 'dawgie/pl/schedule.py', 'complete', props=['C03', 'C04', 'C05', 'C18'])
+@contract(W, 'dawgie/pl/schedule.py', 'complete', props=['C01', 'C02', 'C03', 'C04', 'C05', 'C18'])
 class complete(ContractBase):
     params = {'job': NODE, 'runid': Opt(INT), 'target': ATOM, 'timing': Ref('Timing'), 'status': STATE}
     modifies = ['Node.doing', 'Node.status', QUE, 'ghost.chronicle', 'dawgie.pl.schedule.err', 'dawgie.pl.schedule.suc']
